@@ -131,6 +131,9 @@ SPECS = {
                 nPg = 1"""),
     ],
     "C08": [
+        ("inverse_map_cost_in_length_units", R + "FEM/_group_elem.py", "                        J = (N[0, 0] @ coordElemBase[:, :dim] - xP) / h_e  # cost function", "                        J = (N[0, 0] @ coordElemBase[:, :dim] - xP)  # cost function"),
+        ("pixel_range_excludes_upper_bound", R + "FEM/_group_elem.py", "                np.floor(coordElem[:, 0].max()) + 1,\n", "                np.ceil(coordElem[:, 0].max()),\n"),
+        ("candidate_elements_not_sorted", R + "FEM/_group_elem.py", "        elements_e = np.sort(np.asarray(elements_e, dtype=int))\n", "        elements_e = np.asarray(elements_e, dtype=int)\n"),
         ("rotate_uses_radians", R + "Geoms/_utils.py", "    theta *= np.pi / 180\n", "    theta *= np.pi / 200\n"),
         ("normals_cross_flipped", GE, "            normals_e_pg = np.cross(dxdr_e_pg, dxds_e_pg)", "            normals_e_pg = np.cross(dxds_e_pg, dxdr_e_pg)"),
         ("normals_2d_flipped", GE, "            normals_e_pg = np.cross((0, 0, 1), dxdr_e_pg)", "            normals_e_pg = np.cross(dxdr_e_pg, (0, 0, 1))"),
